@@ -502,10 +502,10 @@ def _graph_finder(x_matrix, z_matrix, get_ops_data=False):
     h_positions = _position_finder(x_mat)
 
     x_mat, z_mat = sla.hadamard_transform(x_mat, z_mat, h_positions)
-    assert (np.linalg.det(x_mat)).astype(
-        int
-    ) % 2 != 0, "Stabilizer generators are not independent."
-    x_inv = (np.linalg.det(x_mat.T) * np.linalg.inv(x_mat.T) % 2).astype(int)
+    # the inverse is needed over GF(2); it is computed exactly (a floating point determinant / adjugate is truncated
+    # wrongly as soon as the integer determinant is not +-1, e.g. -2.9999999999999996 -> -2)
+    x_inv = _inverse_mod2(x_mat.T)
+    assert x_inv is not None, "Stabilizer generators are not independent."
     final_z = (z_mat.T @ x_inv) % 2
 
     # get position of non-zero diagonal elements in the final Z matrix to find qubits to apply clifford operations on
@@ -527,6 +527,30 @@ def _graph_finder(x_matrix, z_matrix, get_ops_data=False):
     if get_ops_data:
         return state_graph, (h_positions, z_diag_pos)
     return state_graph
+
+
+def _inverse_mod2(matrix):
+    """
+    Inverse of a square binary matrix over GF(2) by Gauss-Jordan elimination.
+
+    :param matrix: a square binary matrix
+    :type matrix: numpy.ndarray
+    :return: the inverse matrix modulo 2, or None if the matrix is singular over GF(2)
+    :rtype: numpy.ndarray or None
+    """
+    n = matrix.shape[0]
+    aug = np.concatenate(
+        [np.asarray(matrix).astype(int) % 2, np.eye(n, dtype=int)], axis=1
+    )
+    for col in range(n):
+        pivots = [row for row in range(col, n) if aug[row, col]]
+        if not pivots:
+            return None
+        aug[[col, pivots[0]]] = aug[[pivots[0], col]]
+        for row in range(n):
+            if row != col and aug[row, col]:
+                aug[row] = (aug[row] + aug[col]) % 2
+    return aug[:, n:]
 
 
 def _phase_correction(stabilizer_tab1, stabilizer_tab2, gate_list):
